@@ -264,6 +264,7 @@ class FakeUpstream:
         self.q = queue.Queue()
         self.stop = False
         self.n = 0
+        self.refused = 0
         self.policy = lambda n: {"glue": b"", "split": False}
         threading.Thread(target=self._run, daemon=True).start()
 
@@ -290,7 +291,16 @@ class FakeUpstream:
                 head, _, rest = bytes(c.rx).partition(b"\r\n\r\n")
                 c.rx = bytearray(rest)
                 reply = b"HTTP/1.1 200 Connection established\r\nX-Upstream: scripted\r\n\r\n"
+                if pol.get("refuse"):
+                    reply = b"HTTP/1.1 %d Upstream says no\r\nContent-Length: 3\r\nX-Upstream: scripted\r\n\r\nno\n" % pol["refuse"]
                 cuts = [len(reply) - 3, len(reply) - 1]
+            elif self.kind == "socks4":
+                while len(c.rx) < 9 or bytes(c.rx[8:]).count(b"\x00") < (2 if bytes(c.rx[4:7]) == b"\x00\x00\x00" and len(c.rx) > 7 and c.rx[7] != 0 else 1):
+                    if c.eof or c.err is not None or c.recv_some(timeout=3.0, want=1) == 0:
+                        break
+                c.rx = bytearray()
+                reply = b"\x00" + bytes([pol.get("refuse", 90)]) + b"\x00\x50\x7f\x00\x00\x01"
+                cuts = [1, 5]
             else:
                 def need(k):
                     while len(c.rx) < k and not c.eof and c.err is None:
@@ -313,7 +323,9 @@ class FakeUpstream:
                 c.rx = c.rx[total:]
                 name = b"bound.upstream.example"
                 reply = b"\x05\x00\x00\x03" + bytes([len(name)]) + name + b"\x1f\x90"
-                cuts = [5 + len(name) // 2, len(reply) - 1]
+                if pol.get("refuse"):
+                    reply = b"\x05" + bytes([pol["refuse"]]) + b"\x00\x01\x00\x00\x00\x00\x00\x00"
+                cuts = [5 + len(name) // 2, len(reply) - 1] if not pol.get("refuse") else [1, 4]
             glue = pol.get("glue", b"")
             if pol.get("split"):
                 last = 0
@@ -326,6 +338,11 @@ class FakeUpstream:
                 c.send(reply + glue)
             c.glue = glue
             c.policy = pol
+            if pol.get("refuse"):
+                self.refused += 1
+                c.recv_until_eof(1.0)
+                c.close()
+                return
             self.q.put(c)
         except OSError:
             c.close()
